@@ -12,10 +12,12 @@ CONSTANTS Buf, Cap, DescA, DescB, MaxFds, HLen
 
 Desc(t) == IF t = "A" THEN DescA ELSE DescB
 Big == 65536
-S(l, v, k, c, t) == [op |-> "send", len |-> l, val |-> v, nfds |-> k, cred |-> c, typ |-> t, rbuf |-> 0, want |-> "", free |-> -1]
+S(l, v, k, c, t) == [op |-> "send", len |-> l, val |-> v, nfds |-> k, cred |-> c, typ |-> t, rbuf |-> 0, want |-> "", free |-> -1, kind |-> ""]
+\* a packet that is not a message of the framed protocol (kind: dup | trunc | garbage) with k descriptors
+J(kind, k)       == [op |-> "inject", len |-> 0, val |-> 0, nfds |-> k, cred |-> "none", typ |-> "C", rbuf |-> 0, want |-> "", free |-> -1, kind |-> kind]
 \* free = free slots in the receiver's descriptor table during the call (-1: no pressure)
-RF(b, w, f)      == [op |-> "recv", len |-> 0, val |-> 0, nfds |-> 0, cred |-> "", typ |-> "", rbuf |-> b, want |-> w, free |-> f]
-RAF(b, w, f)     == [op |-> "recvall", len |-> 0, val |-> 0, nfds |-> 0, cred |-> "", typ |-> "", rbuf |-> b, want |-> w, free |-> f]
+RF(b, w, f)      == [op |-> "recv", len |-> 0, val |-> 0, nfds |-> 0, cred |-> "", typ |-> "", rbuf |-> b, want |-> w, free |-> f, kind |-> ""]
+RAF(b, w, f)     == [op |-> "recvall", len |-> 0, val |-> 0, nfds |-> 0, cred |-> "", typ |-> "", rbuf |-> b, want |-> w, free |-> f, kind |-> ""]
 R(b, w)          == RF(b, w, -1)
 RA(b, w)         == RAF(b, w, -1)
 
@@ -35,7 +37,8 @@ GobSendRed  == UNION { { S(0, v, 0, "none", t) : v \in {64, Cap - Desc(t), Cap -
 GobRecvRed  == { R(0, w) : w \in {"M", "X"} }
 
 \* a receive may be issued only when a message is certainly queued
-Sure(layer, o) == o.op = "send" /\ o.nfds <= MaxFds /\ (layer = "gob" => o.val + DescA + DescB <= Cap)
+Sure(layer, o) == \/ o.op = "inject"
+                  \/ o.op = "send" /\ o.nfds <= MaxFds /\ (layer = "gob" => o.val + DescA + DescB <= Cap)
 Valid(layer, s) ==
   /\ \A i \in DOMAIN s : s[i].op = "recv" =>
         Cardinality({ j \in 1..(i - 1) : Sure(layer, s[j]) }) > Cardinality({ j \in 1..(i - 1) : s[j].op = "recv" })
@@ -67,8 +70,16 @@ PressHist(layer) ==
   { [layer |-> layer, passcred |-> TRUE, part |-> "presshist", inspect |-> "end", ops |-> Append(s, RAF(IF layer = "raw" THEN Big + 64 ELSE 0, IF layer = "raw" THEN "" ELSE "M", f))] :
       s \in { x \in Seqs(PressOps(layer), HLen) : Valid(layer, x) }, f \in {1, 2} }
 
+\* ---- rejected packets anywhere in a sequence of framed messages: the receiver keeps reading on the same
+\* socket; every later message must come out exactly as sent, with its own descriptors
+BadOps == { S(0, 64, k, "none", t) : k \in {0, 1}, t \in {"A", "B"} }
+          \cup { J(kd, k) : kd \in {"dup", "trunc", "garbage"}, k \in {0, 2} } \cup { RF(0, "M", -1) }
+BadHist ==
+  { [layer |-> "gob", passcred |-> TRUE, part |-> "badhist", inspect |-> i, ops |-> Append(s, RA(0, "M"))] :
+      s \in { x \in Seqs(BadOps, HLen) : Valid("gob", x) /\ \E j \in DOMAIN x : x[j].op = "inject" }, i \in {"now", "end"} }
+
 Cases ==
-  PressPairs \cup PressHist("raw") \cup PressHist("gob") \cup
+  BadHist \cup PressPairs \cup PressHist("raw") \cup PressHist("gob") \cup
   { Fix(c) : c \in Pairs("raw", RawSendFull, RawRecvFull, BOOLEAN) \cup Pairs("gob", GobSendFull, GobRecvFull, {TRUE}) }
   \cup Hist("raw", RawSendRed \cup RawRecvRed, HLen, RA(Big + 64, ""))
   \cup Hist("gob", GobSendRed \cup GobRecvRed, HLen - 1, RA(0, "M"))
